@@ -1,6 +1,6 @@
 ---- MODULE MC_C07 ----
 (* case generator for C07: abstract documents over the alphabet below *)
 EXTENDS DocGen
-MCAlphabet == {"UL","OL","LI","BQ","PRE","P","DIV","T","t","INL","IMG","DT","LNK"}
-MCRoots    == {"UL","OL","BQ","PRE","P","DT","LNK"}
+MCAlphabet == {"UL","OL","LI","BQ","PRE","P","DIV","T","t","INL","IMG","DT","LNK","TW"}
+MCRoots    == {"UL","OL","BQ","PRE","P","DT","LNK","TW","T"}
 ====
